@@ -480,6 +480,75 @@ func runC09(r *Run) {
 		}
 		r.atLeast("ParseUfloat call sites", n, 2)
 	})
+
+	r.rule("R7", "the list scanner hands out clean ranges: trailing optional whitespace is cut off before the callback, and the quoted-pair flag never survives a character unchanged (E7/E3)", func() {
+		f := r.Fn("", "forEachMediaRange")
+		// (a) what the callback receives went through a right trim
+		n := 0
+		for _, c := range callsIn(f, false) {
+			if _, isParam := c.Common.Value.(*ssa.Parameter); !isParam || c.Common.IsInvoke() {
+				continue
+			}
+			n++
+			arg := c.Common.Args[0]
+			trimmed := dependsOn(arg, func(v ssa.Value) bool {
+				switch x := v.(type) {
+				case *ssa.Call:
+					nm := calleeName(&x.Call)
+					return strings.Contains(nm, "TrimRight") || strings.HasSuffix(nm, ".TrimSpace") || strings.HasSuffix(nm, "utils/v2.Trim") || strings.HasSuffix(nm, "bytes.Trim")
+				case *ssa.Slice:
+					// x[:len(x)-1] under a loop: the hand-written right trim
+					if x.High != nil {
+						if bo, ok := x.High.(*ssa.BinOp); ok && bo.Op == token.SUB && isConstInt(bo.Y, 1) {
+							if lc, ok := bo.X.(*ssa.Call); ok && calleeName(&lc.Call) == "builtin:len" {
+								return true
+							}
+						}
+					}
+				}
+				return false
+			}) != nil
+			r.check(trimmed, fmt.Sprintf("forEachMediaRange:callback#%d:right-trimmed", n), r.pos(c.Instr), "the range handed to the callback has its trailing blanks removed",
+				"a media range is handed on with the optional whitespace that precedes the comma: `text/html;q=0 , text/plain` yields the weight text `0 `, ParseUfloat fails, the error is dropped and the range keeps q=1 — a range the client refused selects an offer")
+		}
+		r.atLeast("callback invocations", n, 1)
+		// (b) the escape flag
+		var esc *ssa.Phi
+		for _, b := range f.Blocks {
+			for _, in := range b.Instrs {
+				if ph, ok := in.(*ssa.Phi); ok && ph.Comment == "escaping" {
+					// the loop-carried one: has an edge from a block it dominates
+					for i := range ph.Edges {
+						if dom(ph.Block(), ph.Block().Preds[i]) {
+							esc = ph
+						}
+					}
+				}
+			}
+		}
+		if esc == nil {
+			r.ok("forEachMediaRange:escape-flag", r.fpos(f), "no loop-carried quoted-pair flag")
+			return
+		}
+		loop := map[*ssa.BasicBlock]bool{}
+		for _, b := range f.Blocks {
+			if dom(esc.Block(), b) {
+				loop[b] = true
+			}
+		}
+		keeps := false
+		for _, lf := range leavesOf(esc, loop) {
+			v := lf.Val
+			if u, ok := v.(*ssa.UnOp); ok && u.Op == token.NOT {
+				v = u.X
+			}
+			if v == ssa.Value(esc) {
+				keeps = true
+			}
+		}
+		r.check(!keeps, "forEachMediaRange:escape-flag", r.pos(esc), "every iteration gives the quoted-pair flag a fresh value (set by a backslash, cleared otherwise)",
+			"the quoted-pair flag is carried over unchanged by characters other than a backslash: after `\\\"` inside a quoted parameter value the closing quote is not counted, the following comma is swallowed and the remaining ranges of the header are lost")
+	})
 }
 
 // pooledParamMapRule is shared by C09-R5 and C05-R5: a map taken from headerParamPool must be empty
